@@ -459,3 +459,496 @@ Example snappy_denotes_example :
   DenotesSnappy [14; 244; 1; 0; 97; 98; 1 + 4 * 3; 1; 2 + 4 * 1; 2; 0; 3 + 4 * 2; 9; 0; 0; 0]
                 [97; 98; 98; 98; 98; 98; 98; 98; 98; 98; 98; 98; 98; 98].
 Proof. apply spec_decode_sound. vm_compute. reflexivity. Qed.
+
+(* ================================================================== compression: list facts *)
+
+Lemma firstn_succ_nth {A} (x : list A) i b :
+  nth_error x i = Some b -> firstn (S i) x = firstn i x ++ [b].
+Proof.
+  revert i. induction x as [|a t IH]; intros i H.
+  - destruct i; discriminate.
+  - destruct i as [|i].
+    + injection H as <-. reflexivity.
+    + cbn [firstn app]. f_equal. apply IH. exact H.
+Qed.
+
+Lemma nth_error_firstn_lt {A} (x : list A) i j : (j < i)%nat -> nth_error (firstn i x) j = nth_error x j.
+Proof.
+  revert i j. induction x as [|a t IH]; intros i j H.
+  - rewrite firstn_nil. reflexivity.
+  - destruct i; [lia|]. destruct j; [reflexivity|]. cbn [firstn nth_error]. apply IH. lia.
+Qed.
+
+(** the byte [d+1] positions back from the end of the first [ip] input bytes *)
+Lemma nthN_rev_firstn (x : list N) ip d :
+  (ip <= length x)%nat -> (d < ip)%nat ->
+  nthN (rev (firstn ip x)) (N.of_nat d) = nth_error x (ip - 1 - d).
+Proof.
+  intros Hi Hd. rewrite nthN_nth_error.
+  assert (HL : length (firstn ip x) = ip) by (rewrite firstn_length; lia).
+  rewrite (nth_error_nth' (rev (firstn ip x)) 0) by (rewrite rev_length; lia).
+  rewrite rev_nth by lia. rewrite HL.
+  rewrite <- (nth_error_nth' (firstn ip x) 0) by lia.
+  rewrite nth_error_firstn_lt by lia. f_equal. lia.
+Qed.
+
+(** LZ77 match: if the [len] bytes at [ip] equal the [len] bytes [off] positions earlier, the overlapping
+    copy (offset [off], length [len]) appended to the first [ip] bytes gives the first [ip+len] bytes *)
+Lemma ocopy_match (x : list N) off : forall len ip,
+  (1 <= off)%nat -> (off <= ip)%nat -> (ip + len <= length x)%nat ->
+  (forall k, (k < len)%nat -> nth_error x (ip - off + k) = nth_error x (ip + k)) ->
+  ocopy len (N.of_nat (off - 1)) (rev (firstn ip x)) = Some (rev (firstn (ip + len) x)).
+Proof.
+  induction len as [|len IH]; intros ip H1 H2 H3 HM.
+  - rewrite Nat.add_0_r. reflexivity.
+  - cbn [ocopy]. rewrite nthN_rev_firstn by lia.
+    replace (ip - 1 - (off - 1))%nat with (ip - off + 0)%nat by lia.
+    rewrite HM by lia. rewrite Nat.add_0_r.
+    destruct (nth_error x ip) as [b|] eqn:E; [|apply nth_error_None in E; lia].
+    replace (b :: rev (firstn ip x)) with (rev (firstn (S ip) x))
+      by (rewrite (firstn_succ_nth _ _ _ E), rev_app_distr; reflexivity).
+    replace (ip + S len)%nat with (S ip + len)%nat by lia.
+    apply IH; try lia.
+    intros k Hk. replace (S ip - off + k)%nat with (ip - off + S k)%nat by lia.
+    replace (S ip + k)%nat with (ip + S k)%nat by lia. apply HM. lia.
+Qed.
+
+Lemma skipn_nth_error {A} (x : list A) p k : nth_error (skipn p x) k = nth_error x (p + k).
+Proof.
+  revert x. induction p as [|p IH]; intros x; [reflexivity|].
+  destruct x as [|a t]; [destruct k; reflexivity|]. cbn [skipn Nat.add nth_error]. apply IH.
+Qed.
+
+(** common prefix length: the bytes agree, and the first list is not exhausted beyond its length *)
+Lemma cpl_spec a : forall b k, (k < cpl a b)%nat -> nth_error a k = nth_error b k /\ (k < length a)%nat.
+Proof.
+  induction a as [|u a' IH]; intros b k H; [simpl in H; lia|].
+  destruct b as [|v b']; [simpl in H; lia|]. cbn [cpl] in H.
+  destruct (u =? v) eqn:E; [|lia].
+  destruct k as [|k].
+  - cbn [nth_error length]. split; [f_equal; lia|lia].
+  - cbn [nth_error length]. destruct (IH b' k) as [P Q]; [lia|]. split; [exact P|lia].
+Qed.
+
+Lemma cpl_le a b : (cpl a b <= length a)%nat.
+Proof.
+  revert b. induction a as [|u a' IH]; intros b; [simpl; lia|].
+  destruct b as [|v b']; [simpl; lia|]. cbn [cpl length]. destruct (u =? v); [specialize (IH b'); lia|lia].
+Qed.
+
+Lemma rd32_some x p : (p + 4 <= length x)%nat -> exists v, rd32 x p = Some v.
+Proof.
+  intros H. unfold rd32.
+  assert (L : length (skipn p x) = (length x - p)%nat) by apply skipn_length.
+  destruct (skipn p x) as [|a [|b [|c [|d r]]]]; simpl in L; try lia. eauto.
+Qed.
+
+(** equal 32-bit words mean the four bytes are equal *)
+Lemma rd32_eq x p q v : bytes x -> rd32 x p = Some v -> rd32 x q = Some v ->
+  forall k, (k < 4)%nat -> nth_error x (p + k) = nth_error x (q + k).
+Proof.
+  intros B Hp Hq k Hk. unfold rd32 in *. rewrite <- !skipn_nth_error.
+  pose proof (bytes_skipn p x B) as Bp. pose proof (bytes_skipn q x B) as Bq.
+  destruct (skipn p x) as [|a0 [|a1 [|a2 [|a3 ra]]]]; try discriminate.
+  destruct (skipn q x) as [|b0 [|b1 [|b2 [|b3 rb]]]]; try discriminate.
+  assert (Hq' : le_val [a0; a1; a2; a3] = le_val [b0; b1; b2; b3]) by congruence.
+  clear Hp Hq. cbn [le_val] in Hq'.
+  repeat (apply bytes_cons in Bp; destruct Bp as [? Bp]).
+  repeat (apply bytes_cons in Bq; destruct Bq as [? Bq]).
+  assert (a0 = b0 /\ a1 = b1 /\ a2 = b2 /\ a3 = b3) as (-> & -> & -> & ->) by lia.
+  destruct k as [|[|[|[|k]]]]; try reflexivity. lia.
+Qed.
+
+Lemma slice_app_firstn (x : list N) a i :
+  (a <= i)%nat -> firstn a x ++ slice x a i = firstn i x.
+Proof.
+  intros H. unfold slice. replace i with (a + (i - a))%nat at 2 by lia.
+  rewrite <- (firstn_skipn a x) at 3. rewrite firstn_app.
+  rewrite firstn_length.
+  destruct (Nat.le_gt_cases a (length x)) as [L|G].
+  - rewrite Nat.min_l by lia. rewrite firstn_firstn, Nat.min_r by lia.
+    replace (a + (i - a) - a)%nat with (i - a)%nat by lia. reflexivity.
+  - rewrite (skipn_all2 x) by lia. rewrite !firstn_nil, !app_nil_r.
+    rewrite firstn_firstn. f_equal. lia.
+Qed.
+
+Lemma slice_length (x : list N) a i : (a <= i)%nat -> (i <= length x)%nat -> length (slice x a i) = (i - a)%nat.
+Proof. intros H1 H2. unfold slice. rewrite firstn_length, skipn_length. lia. Qed.
+
+Lemma bytes_slice x a i : bytes x -> bytes (slice x a i).
+Proof. intros B. unfold slice. apply bytes_firstn, bytes_skipn, B. Qed.
+
+(* ================================================================== compression: the emitters *)
+
+Lemma EncElems_app a sa : EncElems a sa -> forall b sb, EncElems b sb -> EncElems (a ++ b) (sa ++ sb).
+Proof.
+  induction 1 as [|e enc es rest He Hes IH]; intros b sb Hb; [exact Hb|].
+  cbn [app]. rewrite <- app_assoc. constructor; [exact He|apply IH; exact Hb].
+Qed.
+
+Lemma EncElems_one e enc : EncElem e enc -> EncElems [e] enc.
+Proof. intros H. rewrite <- (app_nil_r enc). constructor; [exact H|constructor]. Qed.
+
+Lemma exec_app a b rout :
+  exec (a ++ b) rout = match exec a rout with Some r => exec b r | None => None end.
+Proof.
+  revert rout. induction a as [|e t IH]; intros rout; [reflexivity|].
+  cbn [app exec]. destruct (exec1 e rout); [apply IH|reflexivity].
+Qed.
+
+Definition lits_bytes (es : list elem) : Prop :=
+  Forall (fun e => match e with Lit bs => bytes bs | Copy _ _ => True end) es.
+
+Lemma EncElem_bytes e enc : EncElem e enc -> match e with Lit bs => bytes bs | Copy _ _ => True end -> bytes enc.
+Proof.
+  intros H HB. inversion H; subst.
+  - apply bytes_cons. split; [lia|exact HB].
+  - apply bytes_cons. split; [lia|]. apply bytes_app. split; assumption.
+  - repeat (apply bytes_cons; split; [lia|]). constructor.
+  - repeat (apply bytes_cons; split; [lia|]). constructor.
+  - assert (P : 2 ^ 32 = 4294967296) by reflexivity. rewrite P in *.
+    repeat (apply bytes_cons; split; [lia|]). constructor.
+Qed.
+
+Lemma EncElems_bytes es body : EncElems es body -> lits_bytes es -> bytes body.
+Proof.
+  induction 1 as [|e enc es rest He Hes IH]; intros HB; [constructor|].
+  inversion HB; subst. apply bytes_app. split; [eapply EncElem_bytes; eassumption|apply IH; assumption].
+Qed.
+
+Lemma Varint_bytes pre v : Varint pre v -> bytes pre.
+Proof.
+  induction 1; [apply bytes_cons; split; [lia|constructor] | apply bytes_cons; split; [lia|assumption]].
+Qed.
+
+(** snappy_write_varint writes a valid preamble *)
+Lemma write_varint_ok fuel : forall v, (1 <= fuel)%nat -> v < 128 ^ N.of_nat fuel ->
+  Varint (write_varint fuel v) v /\ (length (write_varint fuel v) <= fuel)%nat.
+Proof.
+  induction fuel as [|f IH]; intros v Hf Hv; [lia|].
+  cbn [write_varint]. destruct (128 <=? v) eqn:E.
+  - assert (Hf' : (1 <= f)%nat).
+    { destruct f; [|lia]. change (128 ^ N.of_nat 1) with 128 in Hv. lia. }
+    assert (Hv' : v / 128 < 128 ^ N.of_nat f).
+    { replace (N.of_nat (S f)) with (N.succ (N.of_nat f)) in Hv by lia. rewrite N.pow_succ_r' in Hv. lia. }
+    destruct (IH (v / 128) Hf' Hv') as [HV HL]. split; [|simpl; lia].
+    assert (Hb : 128 <= 128 + v mod 128 < 256) by lia.
+    pose proof (V_more (128 + v mod 128) _ _ Hb HV) as HH.
+    replace (128 + v mod 128 - 128 + 128 * (v / 128)) with v in HH by lia. exact HH.
+  - split; [constructor; lia|simpl; lia].
+Qed.
+
+Lemma write_varint_preamble v : v < 2 ^ 32 -> Preamble (write_varint 5 v) v.
+Proof.
+  intros H. destruct (write_varint_ok 5 v) as [HV HL]; [lia| |].
+  - change (128 ^ N.of_nat 5) with 34359738368. change (2 ^ 32) with 4294967296 in H. lia.
+  - split; [exact HV|]. split; [exact HL|exact H].
+Qed.
+
+(** snappy_emit_literal writes one valid literal element *)
+Lemma emit_literal_enc lit : 1 <= nlen lit -> nlen lit <= 2 ^ 32 -> EncElem (Lit lit) (emit_literal lit).
+Proof.
+  intros H1 H2. change (2 ^ 32) with 4294967296 in H2. unfold emit_literal. set (len := nlen lit) in *.
+  destruct (len <=? 60) eqn:E1.
+  { cbn [app]. replace ((4 * (len - 1)) mod 256) with (4 * (nlen lit - 1)) by (fold len; lia).
+    constructor. fold len. lia. }
+  destruct (len <=? 256) eqn:E2.
+  { change 240 with (4 * (59 + nlen [(len - 1) mod 256])).
+    change ([4 * (59 + nlen [(len - 1) mod 256]); (len - 1) mod 256] ++ lit)
+      with (4 * (59 + nlen [(len - 1) mod 256]) :: [(len - 1) mod 256] ++ lit).
+    constructor.
+    - rewrite nlen_cons, nlen_nil. lia.
+    - apply bytes_cons. split; [lia|constructor].
+    - fold len. cbn [le_val]. lia. }
+  destruct (len <=? 65536) eqn:E3.
+  { set (lb := [(len - 1) mod 256; ((len - 1) / 256) mod 256]).
+    change 244 with (4 * (59 + nlen lb)).
+    change ([4 * (59 + nlen lb); (len - 1) mod 256; ((len - 1) / 256) mod 256] ++ lit)
+      with (4 * (59 + nlen lb) :: lb ++ lit).
+    constructor.
+    - unfold lb. rewrite !nlen_cons, nlen_nil. lia.
+    - unfold lb. repeat (apply bytes_cons; split; [lia|]). constructor.
+    - fold len. unfold lb. cbn [le_val]. lia. }
+  destruct (len <=? 16777216) eqn:E4.
+  { set (lb := [(len - 1) mod 256; ((len - 1) / 256) mod 256; ((len - 1) / 65536) mod 256]).
+    change 248 with (4 * (59 + nlen lb)).
+    change ([4 * (59 + nlen lb); (len - 1) mod 256; ((len - 1) / 256) mod 256; ((len - 1) / 65536) mod 256] ++ lit)
+      with (4 * (59 + nlen lb) :: lb ++ lit).
+    constructor.
+    - unfold lb. rewrite !nlen_cons, nlen_nil. lia.
+    - unfold lb. repeat (apply bytes_cons; split; [lia|]). constructor.
+    - fold len. unfold lb. cbn [le_val]. lia. }
+  { set (lb := [(len - 1) mod 256; ((len - 1) / 256) mod 256; ((len - 1) / 65536) mod 256;
+                ((len - 1) / 16777216) mod 256]).
+    change 252 with (4 * (59 + nlen lb)).
+    change ([4 * (59 + nlen lb); (len - 1) mod 256; ((len - 1) / 256) mod 256; ((len - 1) / 65536) mod 256;
+             ((len - 1) / 16777216) mod 256] ++ lit)
+      with (4 * (59 + nlen lb) :: lb ++ lit).
+    constructor.
+    - unfold lb. rewrite !nlen_cons, nlen_nil. lia.
+    - unfold lb. repeat (apply bytes_cons; split; [lia|]). constructor.
+    - fold len. unfold lb. cbn [le_val]. lia. }
+Qed.
+
+Lemma emit_literal_len lit :
+  nlen (emit_literal lit) =
+  nlen lit + 1 + (if nlen lit <=? 60 then 0 else if nlen lit <=? 256 then 1 else if nlen lit <=? 65536 then 2
+                  else if nlen lit <=? 16777216 then 3 else 4).
+Proof.
+  unfold emit_literal. rewrite nlen_app.
+  destruct (nlen lit <=? 60); [rewrite !nlen_cons, nlen_nil; lia|].
+  destruct (nlen lit <=? 256); [rewrite !nlen_cons, nlen_nil; lia|].
+  destruct (nlen lit <=? 65536); [rewrite !nlen_cons, nlen_nil; lia|].
+  destruct (nlen lit <=? 16777216); rewrite !nlen_cons, nlen_nil; lia.
+Qed.
+
+Lemma copy2_enc off len : 1 <= len <= 64 -> off < 65536 -> EncElem (Copy off len) (copy2_bytes off len).
+Proof.
+  intros Hl Ho. unfold copy2_bytes, K_COPY2, Snappy_SNAPPY_COPY_2.
+  replace ((4 * (len - 1) + 2) mod 256) with (4 * (len - 1) + 2) by lia.
+  replace ((off / 256) mod 256) with (off / 256) by lia.
+  constructor; assumption.
+Qed.
+
+Lemma exec1_copy off len rout : off <> 0 -> exec1 (Copy off len) rout = ocopy (N.to_nat len) (off - 1) rout.
+Proof. intros H. cbn [exec1]. destruct (off =? 0) eqn:E; [lia|reflexivity]. Qed.
+
+(** the last piece of snappy_emit_copy: one copy-1 or copy-2 element *)
+Lemma emit_copy_tail_enc off len :
+  4 <= len <= 64 -> 1 <= off < 65536 ->
+  EncElem (Copy off len)
+    (if (12 <=? len) || (2048 <=? off) then copy2_bytes off len
+     else [(32 * (off / 256) + 4 * (len - 4) + K_COPY1) mod 256; off mod 256]).
+Proof.
+  intros Hl Ho. destruct ((12 <=? len) || (2048 <=? off)) eqn:E.
+  - apply copy2_enc; lia.
+  - unfold K_COPY1, Snappy_SNAPPY_COPY_1.
+    replace ((32 * (off / 256) + 4 * (len - 4) + 1) mod 256) with (32 * (off / 256) + 4 * (len - 4) + 1) by lia.
+    constructor; lia.
+Qed.
+
+(** snappy_emit_copy writes valid copy elements that together copy [len] bytes from [off] back *)
+Lemma emit_copy_enc fuel : forall off len,
+  4 <= len -> (N.to_nat (len / 64) < fuel)%nat -> 1 <= off < 65536 ->
+  exists cs, EncElems cs (emit_copy fuel off len) /\ lits_bytes cs /\
+             forall rout, exec cs rout = ocopy (N.to_nat len) (off - 1) rout.
+Proof.
+  induction fuel as [|f IH]; intros off len Hl Hf Ho; [lia|].
+  cbn [emit_copy]. destruct (68 <=? len) eqn:E68.
+  - destruct (IH off (len - 64)) as (cs & Hcs & HB & Hx); [lia|lia|lia|].
+    exists (Copy off 64 :: cs). split; [constructor; [apply copy2_enc; lia|exact Hcs]|].
+    split; [constructor; [exact I|exact HB]|].
+    intros rout. cbn [exec]. rewrite exec1_copy by lia.
+    replace (N.to_nat len) with (N.to_nat 64 + N.to_nat (len - 64))%nat by lia.
+    rewrite ocopy_add. destruct (ocopy (N.to_nat 64) (off - 1) rout); [apply Hx|reflexivity].
+  - destruct (64 <? len) eqn:E64.
+    + exists [Copy off 60; Copy off (len - 60)]. split; [|split].
+      * change [Copy off 60; Copy off (len - 60)] with ([Copy off 60] ++ [Copy off (len - 60)]).
+        apply EncElems_app; apply EncElems_one; [apply copy2_enc; lia|apply emit_copy_tail_enc; lia].
+      * repeat constructor.
+      * intros rout. cbn [exec]. rewrite !exec1_copy by lia.
+        replace (N.to_nat len) with (N.to_nat 60 + N.to_nat (len - 60))%nat by lia.
+        rewrite ocopy_add. destruct (ocopy (N.to_nat 60) (off - 1) rout) as [r|]; [|reflexivity].
+        rewrite exec1_copy by lia. destruct (ocopy (N.to_nat (len - 60)) (off - 1) r); reflexivity.
+    + exists [Copy off len]. split; [|split].
+      * cbn [app]. apply EncElems_one. apply emit_copy_tail_enc; lia.
+      * repeat constructor.
+      * intros rout. cbn [exec]. rewrite exec1_copy by lia. destruct (ocopy (N.to_nat len) (off - 1) rout); reflexivity.
+Qed.
+
+Lemma emit_copy_len fuel : forall off len,
+  4 <= len -> (N.to_nat (len / 64) < fuel)%nat -> nlen (emit_copy fuel off len) + 1 <= len.
+Proof.
+  induction fuel as [|f IH]; intros off len Hl Hf; [lia|].
+  cbn [emit_copy]. destruct (68 <=? len) eqn:E68.
+  - rewrite nlen_app. specialize (IH off (len - 64)). unfold copy2_bytes at 1. rewrite !nlen_cons, nlen_nil.
+    assert (nlen (emit_copy f off (len - 64)) + 1 <= len - 64) by (apply IH; lia). lia.
+  - rewrite nlen_app. destruct (64 <? len) eqn:E64.
+    + destruct ((12 <=? len - 60) || (2048 <=? off)); unfold copy2_bytes; rewrite !nlen_cons, nlen_nil; lia.
+    + destruct ((12 <=? len) || (2048 <=? off)); unfold copy2_bytes; rewrite !nlen_cons, nlen_nil; lia.
+Qed.
+
+(* ================================================================== compression: the main loop *)
+
+Lemma MAX_OFFSET_eq : Snappy_SNAPPY_MAX_OFFSET = 32768.
+Proof. reflexivity. Qed.
+
+Lemma lits_bytes_app a b : lits_bytes a -> lits_bytes b -> lits_bytes (a ++ b).
+Proof. unfold lits_bytes. intros. apply Forall_app. split; assumption. Qed.
+
+Section CompressProofs.
+  Context {St : Type}.
+  Variable look : St -> nat -> nat * St.
+  Variable ins : St -> nat -> St.
+
+  (** Invariant of the main loop, for EVERY match finder: from a state (ip, anchor) the loop emits
+      valid elements that extend the first [anchor] input bytes to the whole input, never reads
+      outside the input, and expands by at most one sixth (plus one byte). *)
+  Lemma sloop_valid (x : list N) (n : nat) : n = length x -> bytes x -> N.of_nat n < 2 ^ 32 ->
+    forall fuel st ip anchor, (anchor <= ip)%nat -> (ip <= n)%nat -> (n - ip < fuel)%nat ->
+    exists body es,
+      sloop look ins fuel x n st ip anchor = Ok body /\ EncElems es body /\ lits_bytes es /\
+      exec es (rev (firstn anchor x)) = Some (rev x) /\
+      6 * nlen body <= 7 * N.of_nat (n - anchor) + 6.
+  Proof.
+    intros Hn B H32. change (2 ^ 32) with 4294967296 in H32.
+    induction fuel as [|f IH]; intros st ip anchor Ha Hi Hf; [lia|].
+    cbn [sloop]. destruct (ip + 15 <? n)%nat eqn:E15.
+    - (* inside the main loop *)
+      destruct (look st ip) as [ref st1].
+      destruct ((ip <=? ref)%nat || (Snappy_SNAPPY_MAX_OFFSET <? N.of_nat (ip - ref))) eqn:Eskip.
+      { apply IH; lia. }
+      rewrite MAX_OFFSET_eq in Eskip.
+      destruct (rd32_some x ref) as [a Ea]; [lia|]. destruct (rd32_some x ip) as [b Eb]; [lia|].
+      rewrite Ea, Eb. destruct (negb (a =? b)) eqn:Eab.
+      { apply IH; lia. }
+      assert (a = b) by lia. subst b. clear Eab.
+      set (ext := cpl (skipn (ip + 4) x) (skipn (ref + 4) x)).
+      set (mlen := (4 + ext)%nat).
+      assert (Hext : (ext <= n - (ip + 4))%nat).
+      { unfold ext. pose proof (cpl_le (skipn (ip + 4) x) (skipn (ref + 4) x)) as P.
+        rewrite skipn_length in P. lia. }
+      assert (HM : forall k, (k < mlen)%nat -> nth_error x (ip - (ip - ref) + k) = nth_error x (ip + k)).
+      { intros k Hk. replace (ip - (ip - ref))%nat with ref by lia.
+        destruct (Nat.lt_ge_cases k 4) as [L|G].
+        - apply (rd32_eq x ref ip a B Ea Eb k L).
+        - destruct (cpl_spec (skipn (ip + 4) x) (skipn (ref + 4) x) (k - 4)) as [P _]; [fold ext; lia|].
+          rewrite !skipn_nth_error in P.
+          replace (ip + 4 + (k - 4))%nat with (ip + k)%nat in P by lia.
+          replace (ref + 4 + (k - 4))%nat with (ref + k)%nat in P by lia. congruence. }
+      assert (HO : ocopy mlen (N.of_nat (ip - ref - 1)) (rev (firstn ip x)) = Some (rev (firstn (ip + mlen) x))).
+      { apply ocopy_match; try lia. exact HM. }
+      destruct (emit_copy_enc (emit_copy_fuel (N.of_nat mlen)) (N.of_nat (ip - ref)) (N.of_nat mlen))
+        as (cs & Hcs & HBcs & Hxcs); [lia|unfold emit_copy_fuel; lia|lia|].
+      pose proof (emit_copy_len (emit_copy_fuel (N.of_nat mlen)) (N.of_nat (ip - ref)) (N.of_nat mlen)) as HCL.
+      assert (HCL' : nlen (emit_copy (emit_copy_fuel (N.of_nat mlen)) (N.of_nat (ip - ref)) (N.of_nat mlen)) + 1 <= N.of_nat mlen)
+        by (apply HCL; [lia|unfold emit_copy_fuel; lia]). clear HCL.
+      destruct (IH (if (ip + mlen + 15 <? n)%nat then ins st1 (ip + mlen - 1)%nat else st1) (ip + mlen)%nat (ip + mlen)%nat)
+        as (rest & es' & Hrest & Hes' & HB' & Hx' & Hb'); [lia|lia|lia|].
+      rewrite Hrest. cbn [bind].
+      (* the pending literal *)
+      assert (HLIT : exists el, EncElems el (if (anchor <? ip)%nat then emit_literal (slice x anchor ip) else []) /\
+                lits_bytes el /\ exec el (rev (firstn anchor x)) = Some (rev (firstn ip x)) /\
+                6 * nlen (if (anchor <? ip)%nat then emit_literal (slice x anchor ip) else []) <= 7 * N.of_nat (ip - anchor) + 6 * (if (anchor <? ip)%nat then 1 else 0)).
+      { destruct (anchor <? ip)%nat eqn:EA.
+        - exists [Lit (slice x anchor ip)].
+          assert (HSL : nlen (slice x anchor ip) = N.of_nat (ip - anchor)) by (unfold nlen; rewrite slice_length; lia).
+          split; [apply EncElems_one, emit_literal_enc; rewrite HSL; change (2 ^ 32) with 4294967296; lia|].
+          split; [constructor; [apply bytes_slice; exact B|constructor]|].
+          split.
+          + cbn [exec exec1]. rewrite rev_append_rev, <- rev_app_distr, slice_app_firstn by lia. reflexivity.
+          + rewrite emit_literal_len, HSL.
+            destruct (N.of_nat (ip - anchor) <=? 60) eqn:L1; [lia|].
+            destruct (N.of_nat (ip - anchor) <=? 256) eqn:L2; [lia|].
+            destruct (N.of_nat (ip - anchor) <=? 65536) eqn:L3; [lia|].
+            destruct (N.of_nat (ip - anchor) <=? 16777216) eqn:L4; lia.
+        - exists []. split; [constructor|]. split; [constructor|].
+          replace anchor with ip by lia. split; [reflexivity|]. change (nlen (@nil N)) with 0. lia. }
+      destruct HLIT as (el & Hel & HBel & Hxel & Hbel).
+      eexists. exists (el ++ cs ++ es'). split; [reflexivity|].
+      split; [apply EncElems_app; [exact Hel|apply EncElems_app; assumption]|].
+      split; [apply lits_bytes_app; [exact HBel|apply lits_bytes_app; assumption]|].
+      split.
+      + rewrite exec_app, Hxel, exec_app, Hxcs.
+        rewrite Nat2N.id. replace (N.of_nat (ip - ref) - 1) with (N.of_nat (ip - ref - 1)) by lia.
+        rewrite HO. exact Hx'.
+      + rewrite !nlen_app. destruct (anchor <? ip)%nat eqn:EA; lia.
+    - (* the final literal *)
+      destruct (anchor <? n)%nat eqn:EA.
+      + assert (HSL : nlen (slice x anchor n) = N.of_nat (n - anchor)) by (unfold nlen; rewrite slice_length; lia).
+        eexists. exists [Lit (slice x anchor n)]. split; [reflexivity|].
+        split; [apply EncElems_one, emit_literal_enc; rewrite HSL; change (2 ^ 32) with 4294967296; lia|].
+        split; [constructor; [apply bytes_slice; exact B|constructor]|].
+        split.
+        * cbn [exec exec1]. rewrite rev_append_rev, <- rev_app_distr, slice_app_firstn by lia.
+          rewrite Hn, firstn_all. reflexivity.
+        * rewrite emit_literal_len, HSL.
+          destruct (N.of_nat (n - anchor) <=? 60) eqn:L1; [lia|].
+          destruct (N.of_nat (n - anchor) <=? 256) eqn:L2; [lia|].
+          destruct (N.of_nat (n - anchor) <=? 65536) eqn:L3; [lia|].
+          destruct (N.of_nat (n - anchor) <=? 16777216) eqn:L4; lia.
+      + eexists. exists []. split; [reflexivity|]. split; [constructor|]. split; [constructor|].
+        split; [|change (nlen (@nil N)) with 0; lia].
+        cbn [exec]. replace anchor with n by lia. rewrite Hn, firstn_all. reflexivity.
+  Qed.
+End CompressProofs.
+
+(* ================================================================== theorems about compress *)
+
+(** For every match finder (every hash function, table size, aliasing pattern beyond 64 KiB) and
+    every input shorter than 2^32 bytes, the compressor's output is a valid raw Snappy block denoting
+    the input, consists of bytes, and is no longer than carquet_snappy_compress_bound. *)
+Theorem snappy_compress_valid_thm : forall (St : Type) (look : St -> nat -> nat * St) (ins : St -> nat -> St)
+    (st0 : St) (x : list N),
+  bytes x -> nlen x < 2 ^ 32 ->
+  exists out, compress_with look ins st0 x = Ok out /\ DenotesSnappy out x /\ bytes out /\
+              nlen out <= compress_bound (nlen x).
+Proof.
+  intros St look ins st0 x B H32. unfold compress_with.
+  assert (HP : Preamble (write_varint 5 (N.of_nat (length x) mod 2 ^ 32)) (nlen x)).
+  { rewrite N.mod_small by exact H32. apply write_varint_preamble. exact H32. }
+  set (hdr := write_varint 5 (N.of_nat (length x) mod 2 ^ 32)) in *.
+  assert (Bh : bytes hdr) by (eapply Varint_bytes; apply HP).
+  assert (Lh : nlen hdr <= 5) by (destruct HP as (_ & L & _); unfold nlen; lia).
+  unfold compress_bound.
+  destruct (length x =? 0)%nat eqn:E0.
+  { exists hdr. split; [reflexivity|]. split; [|split; [exact Bh|lia]].
+    exists hdr, [], []. rewrite app_nil_r. repeat split; try apply HP; try constructor.
+    destruct x; [reflexivity|simpl in E0; lia]. }
+  destruct (length x <? 15)%nat eqn:E15.
+  { exists (hdr ++ emit_literal x). split; [reflexivity|].
+    assert (HL : EncElem (Lit x) (emit_literal x)).
+    { apply emit_literal_enc; unfold nlen in *; lia. }
+    split; [|split].
+    - exists hdr, (emit_literal x), [Lit x]. split; [reflexivity|]. split; [exact HP|].
+      split; [apply EncElems_one; exact HL|]. cbn [exec exec1]. rewrite rev_append_rev, app_nil_r. reflexivity.
+    - apply bytes_app. split; [exact Bh|]. eapply EncElem_bytes; [exact HL|exact B].
+    - rewrite nlen_app, emit_literal_len. destruct (nlen x <=? 60) eqn:L; [lia|unfold nlen in *; lia]. }
+  destruct (sloop_valid look ins x (length x) eq_refl B H32 (S (length x)) st0 O O)
+    as (body & es & Hs & Hes & HB & Hx & Hb); [lia|lia|lia|].
+  rewrite Hs. cbn [bind]. exists (hdr ++ body). split; [reflexivity|]. split; [|split].
+  - exists hdr, body, es. split; [reflexivity|]. split; [exact HP|]. split; [exact Hes|exact Hx].
+  - apply bytes_app. split; [exact Bh|]. eapply EncElems_bytes; eassumption.
+  - rewrite nlen_app. unfold nlen in *. rewrite Nat.sub_0_r in Hb. lia.
+Qed.
+
+(** C09: compress, then decompress into a buffer of exactly len(x) bytes, returns x *)
+Theorem snappy_roundtrip_thm : forall (St : Type) (look : St -> nat -> nat * St) (ins : St -> nat -> St)
+    (st0 : St) (x : list N),
+  bytes x -> nlen x < 2 ^ 32 ->
+  exists out, compress_with look ins st0 x = Ok out /\ decompress out (nlen x) = Ok x.
+Proof.
+  intros St look ins st0 x B H32.
+  destruct (snappy_compress_valid_thm St look ins st0 x B H32) as (out & Hc & HD & Bo & _).
+  exists out. split; [exact Hc|]. apply snappy_decompress_complete_thm; [exact Bo|exact HD|lia].
+Qed.
+
+(** C09: with a destination of at least the advertised bound the call succeeds, writes at most
+    [bound] bytes (no write beyond the destination) and reports the true length ... *)
+Theorem snappy_compress_c_ok_thm : forall (St : Type) (look : St -> nat -> nat * St) (ins : St -> nat -> St)
+    (st0 : St) (x : list N) (cap : N),
+  bytes x -> nlen x < 2 ^ 32 -> compress_bound (nlen x) <= cap ->
+  exists out, compress_c look ins st0 x cap = Ok out /\ nlen out <= compress_bound (nlen x) /\
+              decompress out (nlen x) = Ok x.
+Proof.
+  intros St look ins st0 x cap B H32 Hc.
+  destruct (snappy_compress_valid_thm St look ins st0 x B H32) as (out & Hco & HD & Bo & Hb).
+  exists out. unfold compress_c. destruct (cap <? compress_bound (nlen x)) eqn:E; [lia|].
+  rewrite Hco. cbn [bind]. destruct (nlen out <=? cap) eqn:E2; [|lia].
+  split; [reflexivity|]. split; [exact Hb|]. apply snappy_decompress_complete_thm; [exact Bo|exact HD|lia].
+Qed.
+
+(** ... and a smaller destination is refused before anything is written. *)
+Theorem snappy_compress_small_dst_refused_thm : forall (St : Type) (look : St -> nat -> nat * St)
+    (ins : St -> nat -> St) (st0 : St) (x : list N) (cap : N),
+  cap < compress_bound (nlen x) -> compress_c look ins st0 x cap = Err ERR_COMP.
+Proof.
+  intros St look ins st0 x cap H. unfold compress_c.
+  destruct (cap <? compress_bound (nlen x)) eqn:E; [reflexivity|lia].
+Qed.
+
+(** the concrete-hash instance: a repetitive input is actually compressed, and comes back *)
+Example snappy_compress_example :
+  let x := repeat 7 40 ++ [1; 2; 3] ++ repeat 7 40 in
+  exists out, compress x = Ok out /\ (length out < length x)%nat /\ spec_decode out = Some x.
+Proof. eexists. split; [vm_compute; reflexivity|]. split; [vm_compute; lia|vm_compute; reflexivity]. Qed.
